@@ -23,8 +23,8 @@ EXTENDS Collect, Json, Randomization
 (*                      overlapping call (both thorough)                   *)
 (*   Collect_late.cfg   LATENESS of stragglers, exhaustively: 2 rounds,     *)
 (*   Collect_late_deep.cfg  n <= 2, clocks that ignore their context and    *)
-(*                      answer 90, 7200 or 259200 units after their round's *)
-(*                      start (late_deep, thorough: 3, 90, 7200, 259200 or  *)
+(*                      answer 90 or 259200 units after their round's start *)
+(*                      (late_deep, thorough: 3, 90, 7200, 259200 or        *)
 (*                      3000000: just after the deadline ... five weeks     *)
 (*                      after it), one or two of them per round, in one or  *)
 (*                      both rounds; NoLeak is decided on behaviours that   *)
